@@ -178,6 +178,8 @@ impl TableFile {
 			std::slice::from_raw_parts_mut(ptr, buf.len())
 		};
 		data.copy_from_slice(buf);
+		#[cfg(pdb_verif)]
+		crate::verif::store(&self.path, offset as u64, buf);
 		Ok(())
 	}
 
